@@ -30,7 +30,7 @@ var FamilyNames = []string{
 	"self", "wide-kids", "wide-filters", "deep-array", "deep-dict", "deep-content",
 	"acroform-loop", "xobject-loop", "type3-loop", "action-chain", "pattern-loop",
 	"parent-loop", "contents-array", "colorspace-chain", "huge-offsets",
-	"nest-function", "nest-action", "nest-colorspace", "presteps-chain", "objstm-filter", "xref-index-sum",
+	"nest-function", "nest-action", "nest-colorspace", "presteps-chain", "objstm-filter", "xref-index-sum", "cmap-wide", "catalog-pages",
 }
 
 // wiringFamily builds a large wiring of one of the model's walkers and
@@ -470,6 +470,14 @@ func (fam *Family) build() ([]byte, error) {
 		return fam.buildObjStmFilter(n), nil
 	case "xref-index-sum":
 		return fam.buildXRefIndexSum(n), nil
+	case "cmap-wide":
+		return fam.buildCMapWide(n), nil
+	case "catalog-pages":
+		// the catalog's /Pages is not a reference to a page tree
+		vals := []string{"7", "(str)", "[2 0 R]", "/Name", "true", "<< /Type /Pages /Kids [] /Count 0 >>", "0 0 R", "2 1 R"}
+		f.obj(cat, fmt.Sprintf("<< /Type /Catalog /Pages %s >>", vals[n%len(vals)]), true)
+		f.obj(pages, "<< /Type /Pages /Kids [] /Count 0 >>", true)
+		return f.render(l, cat, fam.XS, nil, nil), nil
 	case "huge-offsets":
 		return fam.buildHugeOffsets(n), nil
 	default:
@@ -605,7 +613,7 @@ func (fam *Family) buildHugeOffsets(n int) []byte {
 // indirect object that lives in an object stream - its own, or (two
 // containers) each other's.  Variants by size: 1 /Filter, 2 /DecodeParms,
 // 3 an element of the /Filter array, 4 an element of the /DecodeParms array,
-// 5.. two containers crossing.  GetFilters must not look into object streams
+// 5, 6 two containers crossing, 7 a DCTDecode container whose decoding fails late.  GetFilters must not look into object streams
 // for these (canObjStm = false), or opening the container never ends.
 func (fam *Family) buildObjStmFilter(n int) []byte {
 	a := newAsm("1.7")
@@ -627,7 +635,12 @@ func (fam *Family) buildObjStmFilter(n int) []byte {
 			ents = append(ents, xent{num: m, typ: 2, stm: num, idx: i})
 		}
 	}
-	switch n % 6 {
+	switch n % 8 {
+	case 7:
+		// an object stream behind DCTDecode: the decoded "pixels" are no index,
+		// getObjStm fails - after the decoder (and its goroutine) was started
+		a.stream(10, "/Type /ObjStm /N 1 /First 4 /Filter /DCTDecode", "", testJPEG(64, 64, false))
+		ents = append(ents, xent{num: 10, typ: 1, off: a.offs[10]}, xent{num: 20, typ: 2, stm: 10, idx: 0})
 	case 1:
 		container(10, []int{20, 21, 22}, "/Filter 20 0 R")
 	case 2:
@@ -701,4 +714,67 @@ func (fam *Family) buildXRefIndexSum(n int) []byte {
 	p := a.pos()
 	a.stream(3, fmt.Sprintf("/Type /XRef /Size %d /W %s /Index [%s] /Root 1 0 R /Filter /FlateDecode", size, w, idx.String()), "", deflate(make([]byte, decoded)))
 	return a.finish(p)
+}
+
+// buildCMapWide: fonts whose embedded CMap / ToUnicode CMap has ranges over
+// the whole 4-byte (XS: 2-byte) code space - wider than the code space of the
+// font - once or (Cyc) a hundred times.  Variants by size: 0 simple Type 1
+// font with a wide ToUnicode bfrange, 1 the same with a one-byte codespace
+// declared, 2 composite font with an embedded encoding CMap (cidrange and
+// notdefrange over everything), 3 composite Identity-H font with a wide
+// ToUnicode.  Enumerating such a range code by code takes 2^32 steps.
+func (fam *Family) buildCMapWide(n int) []byte {
+	lo, hi := "<00000000>", "<FFFFFFFF>"
+	if fam.XS {
+		lo, hi = "<0000>", "<FFFF>"
+	}
+	lines := 1
+	if fam.Cyc {
+		lines = 100
+	}
+	head := "/CIDInit /ProcSet findresource begin\n12 dict begin\nbegincmap\n/CIDSystemInfo << /Registry (Adobe) /Ordering (UCS) /Supplement 0 >> def\n/CMapName /Wide def\n"
+	tail := "endcmap\nCMapName currentdict /CMap defineresource pop\nend\nend\n"
+	ranges := func(op, val string) string {
+		var b strings.Builder
+		fmt.Fprintf(&b, "%d begin%s\n", lines, op)
+		for i := 0; i < lines; i++ {
+			fmt.Fprintf(&b, "%s %s %s\n", lo, hi, val)
+		}
+		fmt.Fprintf(&b, "end%s\n", op)
+		return b.String()
+	}
+	space := fmt.Sprintf("1 begincodespacerange\n%s %s\nendcodespacerange\n", lo, hi)
+	if n%4 == 1 {
+		space = "1 begincodespacerange\n<00> <FF>\nendcodespacerange\n"
+	}
+	tu := head + "/CMapType 2 def\n" + space + ranges("bfrange", "<0041>") + ranges("bfchar", "")[:0] + tail
+	enc := head + "/CMapType 1 def\n" + space + ranges("cidrange", "0") + ranges("notdefrange", "1") + tail
+
+	f := newFileSpec()
+	l := layout{helperStm: 30, xrefObj: 31}
+	f.obj(1, "<< /Type /Catalog /Pages 2 0 R >>", false)
+	f.obj(2, "<< /Type /Pages /Kids [3 0 R] /Count 1 >>", false)
+	f.obj(3, "<< /Type /Page /Parent 2 0 R /MediaBox [0 0 100 100] /Resources << /Font << /F1 5 0 R >> >> /Contents 4 0 R >>", false)
+	widths := strings.TrimSpace(strings.Repeat("500 ", 95))
+	fd := "<< /Type /FontDescriptor /FontName /Wide /Flags 32 /FontBBox [0 -200 1000 800] /ItalicAngle 0 /Ascent 800 /Descent -200 /CapHeight 700 /StemV 80 >>"
+	text := "(AB) Tj"
+	switch n % 4 {
+	case 0, 1:
+		f.obj(5, fmt.Sprintf("<< /Type /Font /Subtype /Type1 /BaseFont /Wide /FirstChar 32 /LastChar 126 /Widths [%s] /FontDescriptor %s /ToUnicode 6 0 R >>", widths, fd), false)
+		f.stm(6, "/Type /CMap /CMapName /Wide", "", []byte(tu))
+	case 2:
+		f.obj(5, "<< /Type /Font /Subtype /Type0 /BaseFont /Wide /Encoding 6 0 R /DescendantFonts [7 0 R] /ToUnicode 8 0 R >>", false)
+		f.stm(6, "/Type /CMap /CMapName /Wide /CIDSystemInfo << /Registry (Adobe) /Ordering (Identity) /Supplement 0 >> /WMode 0", "", []byte(enc))
+		f.stm(8, "/Type /CMap /CMapName /WideTU", "", []byte(tu))
+		text = "<00000041> Tj"
+	default:
+		f.obj(5, "<< /Type /Font /Subtype /Type0 /BaseFont /Wide /Encoding /Identity-H /DescendantFonts [7 0 R] /ToUnicode 8 0 R >>", false)
+		f.stm(8, "/Type /CMap /CMapName /WideTU", "", []byte(tu))
+		text = "<0041> Tj"
+	}
+	if n%4 >= 2 {
+		f.obj(7, fmt.Sprintf("<< /Type /Font /Subtype /CIDFontType2 /BaseFont /Wide /CIDSystemInfo << /Registry (Adobe) /Ordering (Identity) /Supplement 0 >> /FontDescriptor %s /DW 1000 /W [0 [500 600]] /CIDToGIDMap /Identity >>", fd), false)
+	}
+	f.stm(4, "", "", []byte("BT /F1 9 Tf "+text+" ET"))
+	return f.render(l, 1, false, nil, nil)
 }
